@@ -23,6 +23,7 @@ import (
 	"github.com/wundergraph/graphql-go-tools/v2/pkg/errorcodes"
 	"github.com/wundergraph/graphql-go-tools/v2/pkg/internal/xcontext"
 	"github.com/wundergraph/graphql-go-tools/v2/pkg/pool"
+	"github.com/wundergraph/graphql-go-tools/v2/pkg/verifhook"
 )
 
 const (
@@ -1038,6 +1039,7 @@ func (r *Resolver) executeSubscriptionUpdate(resolveCtx *Context, sub *subscript
 		return
 	}
 
+	verifhook.Yield("sub.update.before_lock", sub.id)
 	sub.writeMu.Lock()
 	if sub.removed.Load() {
 		sub.writeMu.Unlock()
@@ -1237,6 +1239,7 @@ func (r *Resolver) addSubscription(triggerID uint64, add *addSubscription) error
 			fmt.Printf("resolver:trigger:start:%d\n", triggerID)
 		}
 
+		verifhook.Yield("trigger.start.begin", triggerID)
 		// The startup hook is blocking so it can reject the subscription before Source.Start.
 		// If either step fails, broadcast the error to all subs and tear down the trigger.
 		err := r.executeStartupHooks(add, trig.updater)
@@ -1276,6 +1279,7 @@ func (r *Resolver) markTriggerInitialized(triggerID uint64) {
 	if !ok {
 		return
 	}
+	verifhook.Yield("trigger.init.before_store", triggerID)
 	trig.initialized.Store(true)
 	if r.reporter != nil {
 		r.reporter.TriggerCountInc(1)
@@ -1314,6 +1318,7 @@ func (r *Resolver) handleTriggerComplete(triggerID uint64) {
 
 	for _, s := range subs {
 		if !s.removed.Load() {
+			verifhook.Yield("sub.complete.before_write", s.id)
 			s.complete()
 		}
 	}
@@ -1330,6 +1335,7 @@ func (r *Resolver) handleTriggerError(triggerID uint64, data []byte) {
 
 	for _, s := range subs {
 		if !s.removed.Load() {
+			verifhook.Yield("sub.error.before_write", s.id)
 			s.error(data)
 		}
 	}
